@@ -371,7 +371,7 @@ Proof.
   - (* TRef *)
     destruct Hd as [Hd|Hd].
     + inversion Hd; subst. exact (format_type_clean fl ctx _ Hp).
-    + destruct (resolves_to_struct ctx (TRef a pkg name0)); simpl in Hd; [destruct Hd as [Hd|[]]; discriminate | contradiction].
+    + match type of Hd with In _ (if ?c then _ else _) => destruct c end; simpl in Hd; [destruct Hd as [Hd|[]]; discriminate | contradiction].
   - (* TScalar *)
     destruct (negb (dyn_is_nil value)).
     + destruct Hd as [Hd|[]]. discriminate.
